@@ -7,6 +7,7 @@ var props = map[string]propCfg{
 	"C03": defCfg(),
 	"C04": defCfg(),
 	"C05": defCfg(),
+	"C06": func() propCfg { c := defCfg(); c.Level = "fault_enumeration"; return c }(),
 	"C13": defCfg(),
 	"C17": defCfg(),
 	"C18": defCfg(),
@@ -20,6 +21,7 @@ var rules = map[string]string{
 	"C03": chainRule + "non-trivial = at least one refusal and more than one admission were judged by the admission oracle",
 	"C04": chainRule + "non-trivial = at least one main-chain switch or truncation happened",
 	"C05": chainRule + "non-trivial = at least one failed operation was checked for traces and more than three live-vs-reopened comparisons ran",
+	"C06": chainRule + "each scenario (3-14 steps on node 0, a second node produces competing blocks) is run uninterrupted with the write journal on, then EVERY prefix of its write units (all boundaries when the scenario issued <= 64 units, else all boundaries of the last three steps plus a sample) is restarted and checked (ledger battery, C01 fresh replay, C02 sums, Walk to tip, one more block and transfer); evaluations counts scenarios, faults_fired.crash-restart counts crash images; non-trivial = more than three crash images were restarted and synced",
 	"C13": chainRule + "non-trivial = a block with pool transactions was mined and replayed on a fresh node",
 	"C17": chainRule + "non-trivial = a walk failed (refused at the irreversible height or otherwise) or undid a block",
 	"C18": chainRule + "non-trivial = more than two snapshot comparisons below the tip ran",
